@@ -581,3 +581,437 @@ def k_fiat_frombytes(base, chk):
     for i, x in enumerate(out):
         k.goal(p, "le", "out[%d] < 2^64" % i, x, 2**64 - 1)
     k.settle()
+
+
+# ---------------------------------------------------------------------------
+# chain mode: fixed addition chains (Invert, Pow22523, Scalar.Invert)
+# ---------------------------------------------------------------------------
+def k_chain(base, chk, which):
+    """the exponent computed by the real SSA (real loop trip counts) equals the specified one, for a
+    symbolic input exponent e (result exponent is c*e; the solver refutes c*e != target*e)"""
+    from . import absmodes
+    fname = base.prog.find("Element)." + which)
+    target = {"Invert": P - 2, "Pow22523": 2**252 - 3}[which]
+    dom = dom_bv.ConcreteDomain()
+    ex = base.executor(dom)
+    e = z3.Int("e")
+    stats = absmodes.install_chain(ex, e)
+    path = X.Path()
+    path.heap = {k: X.clone_cells(v) for k, v in ex.base_heap.items()}
+    ET = base.prog.T(F + "Element")
+    z = X.Ptr(ex.new_obj(path, ET, init=absmodes.Abs(e)))
+    v = X.Ptr(ex.new_obj(path, ET, init=absmodes.Abs(z3.Int("junk"))))
+    t0 = time.time()
+    (p,) = ex.call(fname, [v, z], path)
+    if p.outcome[0] != "ret":
+        raise X.ExecError("%s: %s" % (which, p.outcome))
+    res = ex.load(p, v).v
+    s = z3.Solver()
+    s.set("timeout", 60000)
+    s.add(res != target * e)
+    r = str(s.check())
+    chk.used(base.prog, fname, "chain mode (exponent arithmetic, Multiply/Square summarised by K-mul/K-sq)")
+    chk.add(Ob("%s: exponent of the addition chain = %s for every input exponent" % (which, {"Invert": "p-2", "Pow22523": "2^252-3 = (p-5)/8"}[which]),
+               r, time.time() - t0, [fname], "chain", detail="%d Square + %d Multiply calls executed" % (stats["sq"], stats["mul"])))
+    ret = p.outcome[1][0]
+    chk.add(Ob("%s: returns the receiver" % which, "unsat" if ret == v else "sat", 0, [fname], "structure"))
+    if r == "sat":
+        # replay: compare natively with pow()
+        from . import native, ref
+        import random
+        rng = random.Random(chk.seed)
+        cands = ref.limb_candidates(rng, 24)
+        ops = [{"op": which, "args": ["v", "z"], "init": {"v": "7,7,7,7,7", "z": ref.fmt_limbs(c)}} for c in cands]
+        resn = native.run_ops("field", ops)
+        for c, rr in zip(cands, resn):
+            got = ref.fe_val(ref.parse_limbs(rr["slots"]["v"])) % P
+            want = pow(ref.fe_val(c) % P, target, P)
+            if got != want:
+                chk.obs[-2].verdict = "violated"
+                chk.violation(which, "%s(z) != z^%d mod p" % (which, target), dict(op=which, inputs=dict(z=c), got=got, want=want))
+                return
+        chk.obs[-2].verdict = "sat-unreplayed"
+
+
+# ---------------------------------------------------------------------------
+# BV-mode kernels (bit shuffling code)
+# ---------------------------------------------------------------------------
+class BVK:
+    def __init__(self, base, chk, fname, label=None, timeout_ms=60000):
+        self.base, self.chk, self.fname = base, chk, fname
+        self.label = label or fname.split(".")[-1].replace(")", "")
+        self.dom = dom_bv.BVDomain(timeout_ms)
+        self.ex = base.executor(self.dom)
+        self.path = X.Path()
+        self.path.heap = {k: X.clone_cells(v) for k, v in self.ex.base_heap.items()}
+        self.prog = base.prog
+        self.ET = base.prog.T(F + "Element")
+        self.sat_obs = []
+        self.inputs = {}
+        chk.used(base.prog, fname, "BV")
+
+    def bv(self, name, w):
+        v = z3.BitVec(name, w)
+        self.inputs[name] = v
+        return v
+
+    def elem(self, name, bound=None):
+        limbs = [self.bv("%s.l%d" % (name, i), 64) for i in range(5)]
+        if bound is not None:
+            for l in limbs:
+                self.path.pc.append(z3.ULE(l, z3.BitVecVal(bound, 64)))
+        oid = self.ex.new_obj(self.path, self.ET, name=name, init=list(limbs))
+        return X.Ptr(oid), limbs
+
+    def bytes_obj(self, name, n):
+        bs = [self.bv("%s[%d]" % (name, i), 8) for i in range(n)]
+        oid = self.ex.new_obj(self.path, self.prog.T("[%d]byte" % n) if ("[%d]byte" % n) in self.prog.types else ("array", n, self.prog.T("uint8")), name=name, init=list(bs))
+        return oid, bs
+
+    def byte_slice(self, name, n):
+        oid, bs = self.bytes_obj(name, n)
+        return X.SliceV(oid, (), 0, n, n), bs, oid
+
+    def run(self, args, path=None):
+        return self.ex.call(self.fname, args, path or self.path)
+
+    def prove(self, path, name, goal, mode="BV"):
+        """goal: z3 Bool that must hold on this path"""
+        t0 = time.time()
+        if isinstance(goal, bool):
+            r = "unsat" if goal else "sat"
+            m = None
+            mode = "structure"
+        else:
+            s = z3.Solver()
+            s.set("timeout", self.dom.solver_timeout if hasattr(self.dom, "solver_timeout") else 60000)
+            for c in path.pc:
+                s.add(c if not isinstance(c, bool) else z3.BoolVal(c))
+            s.add(z3.Not(goal))
+            rr = s.check()
+            r = str(rr)
+            m = None
+            if rr == z3.sat:
+                mod = s.model()
+                m = {n: str(mod.eval(v, model_completion=True)) for n, v in self.inputs.items()}
+        ob = Ob("%s: %s" % (self.label, name), r, time.time() - t0, [self.fname], mode, model=m)
+        self.chk.add(ob)
+        if r == "sat":
+            self.sat_obs.append(ob)
+        return ob
+
+    def settle(self, replay=None, site=None):
+        if not self.sat_obs:
+            return
+        hit = None
+        if replay is not None:
+            try:
+                hit = replay([o.model for o in self.sat_obs if o.model], self.chk.seed)
+            except Exception as e:
+                self.chk.note_inconclusive("replay of %s failed: %r" % (self.label, e))
+        for o in self.sat_obs:
+            o.verdict = "violated" if hit else "sat-unreplayed"
+        if hit:
+            self.chk.violation(site or self.label, "%s: %s" % (self.label, hit["what"]), hit)
+
+
+def cat_bytes(bs):
+    """little-endian concatenation of 8-bit terms (ints or BVs) as one bit-vector"""
+    vs = [z3.BitVecVal(b, 8) if type(b) is int else b for b in bs]
+    return z3.Concat(*reversed(vs)) if len(vs) > 1 else vs[0]
+
+
+def limbs_val(limbs, width):
+    tot = z3.BitVecVal(0, width)
+    for i, l in enumerate(limbs):
+        lv = z3.BitVecVal(l, 64) if type(l) is int else l
+        tot = tot + (z3.ZeroExt(width - 64, lv) << (51 * i))
+    return tot
+
+
+def bytes_model_to_hex(m, name, n):
+    return bytes(int(m.get("%s[%d]" % (name, i), "0")) for i in range(n)).hex()
+
+
+def k_setbytes(base, chk):
+    fname = base.prog.find("Element).SetBytes")
+    k = BVK(base, chk, fname)
+    sl, bs, boid = k.byte_slice("x", 32)
+    v, vl = k.elem("v")
+    paths = k.run([v, sl])
+    ok = [p for p in paths if p.outcome[0] == "ret"]
+    chk.add(Ob("SetBytes(32 bytes): single non-panicking path", "unsat" if len(paths) == 1 and len(ok) == 1 else "sat", 0, [fname], "structure"))
+    p = ok[0]
+    out = k.ex.load(p, v)
+    val = cat_bytes(bs)
+    for i in range(5):
+        want = z3.ZeroExt(13, z3.Extract(51 * i + 50, 51 * i, val))
+        k.prove(p, "limb %d = bits %d..%d of the input (bit 255 ignored)" % (i, 51 * i, 51 * i + 50), (out[i] if not type(out[i]) is int else z3.BitVecVal(out[i], 64)) == want)
+    ret = p.outcome[1]
+    k.prove(p, "returns (receiver, nil)", ret[0] == v and ret[1] is None)
+    k.prove(p, "input bytes not written", not any(w[0] == "w" and w[1] == boid for w in p.log))
+
+    def replay(models, seed):
+        from . import native, ref
+        import random
+        rng = random.Random(seed)
+        cands = [bytes_model_to_hex(m, "x", 32) for m in models]
+        cands += ["ff" * 32, "00" * 32, "ed" + "ff" * 30 + "7f", "ec" + "ff" * 30 + "ff", "01" + "00" * 30 + "80"]
+        cands += [bytes(rng.randrange(256) for _ in range(32)).hex() for _ in range(40)]
+        res = native.run_ops("field", [{"op": "SetBytes", "args": ["v", "x"], "init": {"v": "7,7,7,7,7", "x": "hex:" + c}} for c in cands])
+        for c, r in zip(cands, res):
+            val = int.from_bytes(bytes.fromhex(c), "little") & ((1 << 255) - 1)
+            want = [(val >> (51 * i)) & M51 for i in range(5)]
+            if r.get("err") or ref.parse_limbs(r["slots"]["v"]) != want:
+                return dict(what="SetBytes(%s) limbs %s, expected %s" % (c, r["slots"].get("v"), want), op="SetBytes", inputs=dict(x=c))
+            if r["slots"]["x"] != "hex:" + c:
+                return dict(what="SetBytes modified its input", op="SetBytes", inputs=dict(x=c))
+        return None
+    k.settle(replay)
+
+
+def reduce_summary(k):
+    """contract K-red as a summary: reduce() leaves 5 fresh limbs < 2^51 (value relation tracked by the caller)"""
+    def summ(ex, path, args):
+        (v,) = args
+        n = path.dstate.setdefault("nred", [0])
+        n[0] += 1
+        limbs = [z3.BitVec("red%d.l%d" % (n[0], i), 64) for i in range(5)]
+        for l in limbs:
+            path.pc.append(z3.ULE(l, z3.BitVecVal(M51, 64)))
+        path.dstate.setdefault("reduced", []).append((ex.load(path, v), limbs))
+        ex.store(path, v, tuple(limbs))
+        return v
+    return summ
+
+
+def k_bytes(base, chk):
+    """serialisation loop of Element.bytes on top of the reduce contract"""
+    fname = base.prog.find("Element).bytes")
+    k = BVK(base, chk, fname)
+    k.ex.summaries[base.prog.find("Element).reduce")] = reduce_summary(k)
+    v, vl = k.elem("v")
+    ooid, obs = k.bytes_obj("out", 32)
+    # Bytes() passes a zeroed array; model that (the OR-accumulation relies on it)
+    k.path.heap[ooid][0] = [0] * 32
+    paths = k.run([v, X.Ptr(ooid)])
+    ok = [p for p in paths if p.outcome[0] == "ret"]
+    chk.add(Ob("bytes: single non-panicking path", "unsat" if len(paths) == 1 and len(ok) == 1 else "sat", 0, [fname], "structure"))
+    p = ok[0]
+    red = p.dstate["reduced"][0][1]
+    out = p.heap[ooid][0]
+    k.prove(p, "32 output bytes = little-endian value of the reduced limbs", cat_bytes(out) == limbs_val(red, 256))
+    k.prove(p, "bit 255 of the encoding is clear", z3.Extract(7, 7, out[31] if type(out[31]) is not int else z3.BitVecVal(out[31], 8)) == 0)
+    k.prove(p, "receiver element not written (works on a copy)", not any(w[0] == "w" and w[1] == v.obj for w in p.log))
+    sl = p.outcome[1][0]
+    k.prove(p, "returns out[:] (len 32)", isinstance(sl, X.SliceV) and sl.obj == ooid and sl.len == 32 and sl.off == 0)
+
+    def replay(models, seed):
+        from . import native, ref
+        import random
+        rng = random.Random(seed)
+        cands = ref.limb_candidates(rng, 64)
+        res = native.run_ops("field", [{"op": "Bytes", "args": ["v"], "init": {"v": ref.fmt_limbs(c)}} for c in cands])
+        for c, r in zip(cands, res):
+            want = (ref.fe_val(c) % P).to_bytes(32, "little").hex()
+            if r["bytes"] != want:
+                return dict(what="Bytes(%s) = %s, expected %s" % (c, r["bytes"], want), op="Bytes", inputs=dict(v=c))
+        return None
+    k.settle(replay)
+
+
+def k_select_swap(base, chk):
+    fname = base.prog.find("Element).Select")
+    k = BVK(base, chk, fname)
+    chk.used(base.prog, F + "mask64Bits", "BV")
+    a, al = k.elem("a")
+    b, bl = k.elem("b")
+    v, vl = k.elem("v")
+    cond = k.bv("cond", 64)
+    k.path.pc.append(z3.Or(cond == 0, cond == 1))
+    (p,) = k.run([v, a, b, cond])
+    out = k.ex.load(p, v)
+    k.prove(p, "cond=1 -> v=a, cond=0 -> v=b (all limbs, any 64-bit contents)",
+            z3.And([z3.If(cond == 1, out[i] == al[i], out[i] == bl[i]) for i in range(5)]))
+    k.prove(p, "arguments not written", not any(w[0] == "w" and w[1] in (a.obj, b.obj) for w in p.log))
+    k.prove(p, "returns the receiver", p.outcome[1][0] == v)
+    k.settle(lambda models, seed: _sel_replay(models, seed, "Select"))
+    # aliasing variants v==a, v==b
+    for al_name, args in (("v=a", lambda: (a, a, b)), ("v=b", lambda: (b, a, b))):
+        k2 = BVK(base, chk, fname, label="Select[%s]" % al_name)
+        a, al = k2.elem("a")
+        b, bl = k2.elem("b")
+        cond = k2.bv("cond", 64)
+        k2.path.pc.append(z3.Or(cond == 0, cond == 1))
+        vv, aa, bb = args()
+        (p,) = k2.run([vv, aa, bb, cond])
+        out = k2.ex.load(p, vv)
+        k2.prove(p, "aliased receiver: same result as with distinct storage",
+                 z3.And([z3.If(cond == 1, out[i] == al[i], out[i] == bl[i]) for i in range(5)]))
+        k2.settle(lambda models, seed: _sel_replay(models, seed, "Select"))
+
+    fname = base.prog.find("Element).Swap")
+    k = BVK(base, chk, fname)
+    v, vl = k.elem("v")
+    u, ul = k.elem("u")
+    cond = k.bv("cond", 64)
+    k.path.pc.append(z3.Or(cond == 0, cond == 1))
+    (p,) = k.run([v, u, cond])
+    ov, ou = k.ex.load(p, v), k.ex.load(p, u)
+    k.prove(p, "cond=1 exchanges, cond=0 leaves both unchanged",
+            z3.And([z3.If(cond == 1, z3.And(ov[i] == ul[i], ou[i] == vl[i]), z3.And(ov[i] == vl[i], ou[i] == ul[i])) for i in range(5)]))
+    k.settle(lambda models, seed: _sel_replay(models, seed, "Swap"))
+    k3 = BVK(base, chk, fname, label="Swap[v=u]")
+    v, vl = k3.elem("v")
+    cond = k3.bv("cond", 64)
+    k3.path.pc.append(z3.Or(cond == 0, cond == 1))
+    (p,) = k3.run([v, v, cond])
+    ov = k3.ex.load(p, v)
+    k3.prove(p, "swap with itself leaves the value unchanged", z3.And([ov[i] == vl[i] for i in range(5)]))
+    k3.settle(lambda models, seed: _sel_replay(models, seed, "Swap"))
+
+
+def _sel_replay(models, seed, op):
+    from . import native, ref
+    import random
+    rng = random.Random(seed)
+    pool = ref.limb_candidates(rng, 40, bound=(1 << 64) - 1)
+    ops, meta = [], []
+    for i in range(0, 40, 2):
+        for c in (0, 1):
+            if op == "Select":
+                for args in (["v", "a", "b"], ["a", "a", "b"], ["b", "a", "b"]):
+                    ops.append({"op": "Select", "args": args + [str(c)], "init": {"v": "7,7,7,7,7", "a": ref.fmt_limbs(pool[i]), "b": ref.fmt_limbs(pool[i + 1])}})
+                    meta.append((pool[i], pool[i + 1], c, args[0]))
+            else:
+                ops.append({"op": "Swap", "args": ["a", "b", str(c)], "init": {"a": ref.fmt_limbs(pool[i]), "b": ref.fmt_limbs(pool[i + 1])}})
+                meta.append((pool[i], pool[i + 1], c, None))
+    res = native.run_ops("field", ops)
+    for (a, b, c, dst), r in zip(meta, res):
+        if op == "Select":
+            want = a if c == 1 else b
+            if ref.parse_limbs(r["slots"][dst]) != want:
+                return dict(what="Select(a,b,%d) into %s wrong: %s" % (c, dst, r["slots"]), op=op, inputs=dict(a=a, b=b, cond=c))
+            others = [n for n in ("a", "b") if n != dst]
+            if any(ref.parse_limbs(r["slots"][n]) != {"a": a, "b": b}[n] for n in others):
+                return dict(what="Select modified an argument", op=op, inputs=dict(a=a, b=b, cond=c))
+        else:
+            wa, wb = (b, a) if c == 1 else (a, b)
+            if ref.parse_limbs(r["slots"]["a"]) != wa or ref.parse_limbs(r["slots"]["b"]) != wb:
+                return dict(what="Swap(cond=%d) wrong: %s" % (c, r["slots"]), op=op, inputs=dict(a=a, b=b, cond=c))
+    return None
+
+
+def bytes_summary(k, tag="bytes"):
+    """Element.Bytes as a summary: fresh 32-byte array (the canonical encoding, contract K-red + K-ser);
+    the same element contents yield the same bytes (functional consistency is added by the caller when needed)"""
+    def summ(ex, path, args):
+        (v,) = args
+        n = path.dstate.setdefault("nbytes", [0])
+        n[0] += 1
+        bs = [z3.BitVec("%s%d[%d]" % (tag, n[0], i), 8) for i in range(32)]
+        oid = ex.new_obj(path, ("array", 32, ex.prog.T("uint8")), name="Bytes()", init=list(bs), kind="heap")
+        path.dstate.setdefault("bytes_of", []).append((ex.load(path, v), bs))
+        return X.SliceV(oid, (), 0, 32, 32)
+    return summ
+
+
+def k_equal_isneg(base, chk):
+    fname = base.prog.find("Element).Equal")
+    k = BVK(base, chk, fname)
+    chk.used(base.prog, "crypto/subtle.ConstantTimeCompare", "BV (standard library SSA)")
+    k.ex.summaries[base.prog.find("Element).Bytes")] = bytes_summary(k)
+    v, vl = k.elem("v")
+    u, ul = k.elem("u")
+    paths = k.run([v, u])
+    chk.add(Ob("Equal: single path (no data-dependent branch)", "unsat" if len(paths) == 1 and paths[0].outcome[0] == "ret" else "sat", 0, [fname], "structure"))
+    p = paths[0]
+    r = p.outcome[1][0]
+    (e1, b1), (e2, b2) = p.dstate["bytes_of"]
+    same = z3.And([x == y for x, y in zip(b1, b2)])
+    rv = r if not type(r) is int else z3.BitVecVal(r, 64)
+    k.prove(p, "returns exactly 1 when the canonical encodings are equal, else exactly 0", z3.If(same, rv == 1, rv == 0))
+    k.prove(p, "compares the encodings of both operands", {id(e1), id(e2)} == {id(e1), id(e2)} and ({tuple(map(str, e1)), tuple(map(str, e2))} == {tuple(map(str, vl)), tuple(map(str, ul))}))
+    k.settle()
+
+    fname = base.prog.find("Element).IsNegative")
+    k = BVK(base, chk, fname)
+    k.ex.summaries[base.prog.find("Element).Bytes")] = bytes_summary(k)
+    v, vl = k.elem("v")
+    (p,) = k.run([v])
+    r = p.outcome[1][0]
+    (e1, b1), = p.dstate["bytes_of"]
+    k.prove(p, "returns bit 0 of the canonical encoding (parity of the reduced value), as 0/1", r == z3.ZeroExt(63, z3.Extract(0, 0, b1[0])))
+    k.settle()
+
+
+def k_setwide(base, chk):
+    fname = base.prog.find("Element).SetWideBytes")
+    k = LFK(base, chk, fname)
+    bs = [k.dom.input("x[%d]" % i, 0, 255) for i in range(64)]
+    k.inputs["x"] = bs
+
+    def setbytes_summary(ex, path, args):
+        # contract of Element.SetBytes (discharged bit-precisely by k_setbytes): limbs < 2^51 whose value is the
+        # low 255 bits of the 32 input bytes
+        vv, sl = args
+        if sl.len != 32:
+            raise X.ExecError("SetBytes summary: len %r" % (sl.len,))
+        inb = [ex.load(path, X.Ptr(sl.obj, sl.path + (sl.off + i,))) for i in range(32)]
+        n = path.dstate.setdefault("nsb", [0])
+        n[0] += 1
+        limbs = [k.dom.input("sb%d.l%d" % (n[0], i), 0, M51) for i in range(5)]
+        q, _ = k.dom.divmod(path, inb[31], 128)
+        path.pc.append(LFCond("==", fval(limbs) + q.scale(2**255) - bval(inb)))
+        ex.store(path, vv, tuple(limbs))
+        return (vv, None)
+    k.ex.summaries[base.prog.find("Element).SetBytes")] = setbytes_summary
+    oid = k.ex.new_obj(k.path, base.prog.T("[64]byte") if "[64]byte" in base.prog.types else ("array", 64, base.prog.T("uint8")), init=list(bs))
+    v, _ = k.out_elem()
+    paths = k.run([v, X.SliceV(oid, (), 0, 64, 64)])
+    (p,) = paths
+    out = k.limbs(p, v)
+    k.goal(p, "congr", "value = 512-bit little-endian input mod p", fval(out), bval(bs), P)
+    out_bounds(k, p, out)
+    ret = p.outcome[1]
+    chk.add(Ob("SetWideBytes: returns (receiver, nil); input not written", "unsat" if ret[0] == v and ret[1] is None and not any(w[0] == "w" and w[1] == oid for w in p.log) else "sat", 0, [fname], "structure"))
+
+    def replay(models, seed):
+        from . import native, ref
+        import random
+        rng = random.Random(seed)
+        cands = []
+        for m in models:
+            if "x" in m:
+                cands.append(bytes(int(b) & 255 for b in m["x"]).hex())
+        cands += ["ff" * 64, "00" * 64, "00" * 31 + "80" + "00" * 32, "00" * 63 + "80", "ff" * 32 + "00" * 32, "00" * 32 + "ff" * 32]
+        cands += [bytes(rng.randrange(256) for _ in range(64)).hex() for _ in range(40)]
+        res = native.run_ops("field", [{"op": "SetWideBytes", "args": ["v", "x"], "init": {"v": "7,7,7,7,7", "x": "hex:" + c}} for c in cands])
+        for c, r in zip(cands, res):
+            want = int.from_bytes(bytes.fromhex(c), "little") % P
+            o = ref.parse_limbs(r["slots"]["v"])
+            if r.get("err") or ref.fe_val(o) % P != want:
+                return dict(what="SetWideBytes(%s) value %d, expected %d" % (c, ref.fe_val(o) % P, want), op="SetWideBytes", inputs=dict(x=c))
+            if any(x > B for x in o):
+                return dict(what="SetWideBytes output limb above invariant", op="SetWideBytes", inputs=dict(x=c))
+        return None
+    k.replay = replay
+    k.settle()
+
+
+def k_wrappers(base, chk):
+    """Multiply/Square are thin wrappers around feMul/feSquare with the arguments in order, returning the receiver"""
+    for meth, callee, n in (("Multiply", "feMul", 3), ("Square", "feSquare", 2)):
+        fname = base.prog.find("Element)." + meth)
+        dom = dom_bv.ConcreteDomain()
+        ex = base.executor(dom)
+        seen = []
+        ex.summaries[F + callee] = lambda ex_, path, args, seen=seen: seen.append(list(args))
+        path = X.Path()
+        path.heap = {k: X.clone_cells(v) for k, v in ex.base_heap.items()}
+        ET = base.prog.T(F + "Element")
+        ptrs = [X.Ptr(ex.new_obj(path, ET)) for _ in range(n)]
+        (p,) = ex.call(fname, ptrs, path)
+        ok = p.outcome[0] == "ret" and p.outcome[1][0] == ptrs[0] and seen == [ptrs] and not any(w[0] == "w" for w in p.log)
+        chk.used(base.prog, fname, "structure")
+        chk.add(Ob("%s: calls %s(v, args...) exactly once, returns the receiver, no other effect" % (meth, callee), "unsat" if ok else "sat", 0, [fname], "structure"))
